@@ -110,8 +110,12 @@ TCall ==
                 cntOK == ev.cnt = Cnt(m.s) /\ ("xcnt" \in DOMAIN ev => ev.xcnt = XCnt(m.s))
             IN IF retOK /\ cntOK
                THEN ex' = m.s /\ UNCHANGED <<lost, viol>>
-               ELSE /\ viol' = Note(Flagged([l |-> l, prop |-> "C12,C13,C01",
-                                     what |-> "call " \o ev.op.op \o ": return value or counters differ from the exporter state machine",
+               ELSE /\ viol' = Note(Flagged([l |-> l,
+                                     \* a kept block that states another parameter set than the one whose hints are applied to it: C04 too
+                                     prop |-> IF "xcnt" \in DOMAIN ev /\ ev.xcnt.bpi # XCnt(m.s).bpi THEN "C04,C12,C13,C01" ELSE "C12,C13,C01",
+                                     what |-> IF "xcnt" \in DOMAIN ev /\ ev.xcnt.bpi # XCnt(m.s).bpi
+                                              THEN "call " \o ev.op.op \o ": the block kept by the application states another Block parameters set than the one it is filled under"
+                                              ELSE "call " \o ev.op.op \o ": return value or counters differ from the exporter state machine",
                                      ret |-> ev.ret, want_nonzero |-> m.nz, cnt |-> ev.cnt, want_cnt |-> Cnt(m.s),
                                      exc |-> IF "exc" \in DOMAIN ev THEN ev.exc ELSE ""]))
                     /\ lost' = TRUE /\ UNCHANGED ex
